@@ -323,6 +323,35 @@ func ruleF2(r *Run) {
 							}
 						}
 					}
+					// (c') e := lst.Front(); for e != nil { ...; e = e.Next() }: the same list walk with the cursor outside the loop header
+					if len(body) == 2 {
+						if as, ok := body[0].(*ast.AssignStmt); ok && len(as.Rhs) == 1 && len(as.Lhs) == 1 {
+							if c, ok := as.Rhs[0].(*ast.CallExpr); ok {
+								if se, ok := c.Fun.(*ast.SelectorExpr); ok && se.Sel.Name == "Front" && rootObj(info, defs, se.X, 0) == coll {
+									if fl, ok := body[1].(*ast.ForStmt); ok && fl.Init == nil && fl.Post == nil && fl.Cond != nil {
+										cur := identObj(info, as.Lhs[0])
+										steps := false
+										if nb := len(fl.Body.List); nb > 0 {
+											if st, ok := fl.Body.List[nb-1].(*ast.AssignStmt); ok && len(st.Lhs) == 1 && len(st.Rhs) == 1 && identObj(info, st.Lhs[0]) == cur {
+												if nc, ok := st.Rhs[0].(*ast.CallExpr); ok && methodName(nc) == "Next" {
+													steps = true
+												}
+											}
+										}
+										if be, ok := fl.Cond.(*ast.BinaryExpr); ok && be.Op == token.NEQ && identObj(info, be.X) == cur && steps {
+											n, _ := emissions(fl.Body.List)
+											if n != perElem {
+												r.Viol(key, head.Pos(), fmt.Sprintf("loop body writes %d values per element, the frame needs %d", n, perElem))
+											} else {
+												r.Ok(key, head.Pos(), fmt.Sprintf("walk over the counted list, %d value(s) per element", n))
+											}
+											continue
+										}
+									}
+								}
+							}
+						}
+					}
 					// (c) body is one loop over the collection with perElem emissions per iteration
 					if len(body) == 1 {
 						var lb *ast.BlockStmt
